@@ -121,7 +121,8 @@ def strategy(tier):
 
 def _same_cell(a, b):
     an = a is None or (isinstance(a, float) and math.isnan(a))
-    bn = b is None or (isinstance(b, float) and math.isnan(b)) or (not isinstance(b, str) and pd.isnull(b))
+    # pandas returns '' for the empty cells of a column that also holds an integer beyond int64
+    bn = b is None or b == '' or (isinstance(b, float) and math.isnan(b)) or (not isinstance(b, str) and pd.isnull(b))
     if an or bn:
         return an and bn
     if isinstance(a, str) or isinstance(b, str):
